@@ -15,6 +15,7 @@ type mapEntry struct {
 }
 
 type omap struct {
+	cell    value // stands for the map's memory in the race detector
 	kt      types.Type
 	entries []*mapEntry
 	fast    map[value]int // concrete basic keys -> entry index
@@ -59,6 +60,9 @@ func (m *omap) find(k value) int {
 }
 
 func (m *omap) lookup(k value) (value, bool) {
+	if m != nil {
+		raceRead(&m.cell)
+	}
 	if i := m.find(k); i >= 0 {
 		return m.entries[i].val, true
 	}
@@ -69,6 +73,7 @@ func (m *omap) insert(k, v value) {
 	if m == nil {
 		panic("runtime error: assignment to entry in nil map")
 	}
+	raceWrite(&m.cell)
 	if i := m.find(k); i >= 0 {
 		e := m.entries[i]
 		if undoOn {
@@ -104,6 +109,7 @@ func (m *omap) delete(k value) {
 	if m == nil {
 		return
 	}
+	raceWrite(&m.cell)
 	if i := m.find(k); i >= 0 {
 		e := m.entries[i]
 		e.deleted = true
@@ -180,6 +186,9 @@ func (it *omapIter) next() tuple {
 var PermuteMaps bool
 
 func newMapIter(m *omap) iter {
+	if m != nil {
+		raceRead(&m.cell)
+	}
 	es := m.live()
 	if PermuteMaps && len(es) >= 2 && eng != nil {
 		if len(es) <= 4 {
